@@ -268,8 +268,9 @@ def check_event(before, after, ev):
 class Harness:
     """A live TraitDict in one of the modes plus its recorders."""
 
-    def __init__(self, mode, state):
+    def __init__(self, mode, state, bare=False):
         self.mode = mode
+        self.bare = bare
         self.rec = Rec()
         self.obs = []
         self.items = []
@@ -296,7 +297,7 @@ class Harness:
             kv, vv = validators(mode)
             self.d = TraitDict(dict((k, v) for k, v in state),
                                key_validator=kv, value_validator=vv,
-                               notifiers=[self.rec])
+                               notifiers=[] if bare else [self.rec])
         self.n_notifiers = len(self.d.notifiers)
 
     def clear_logs(self):
@@ -366,7 +367,9 @@ def step(ctx, h, ref, op, tag):
     if after != before:
         ctx.nontriv((mode, list(before.items()), op))
         ctx.outcome("event")
-        if len(evs) != 1:
+        if h.bare:
+            pass            # nobody is listening
+        elif len(evs) != 1:
             bad("event-count", "contents changed but %d events" % len(evs))
         else:
             err = check_event(before, after, evs[0])
@@ -470,20 +473,25 @@ def shards(tier):
         for c in range(nchunks):
             out.append({"kind": "depth2", "mode": mode, "chunk": c,
                         "of": nchunks})
+    out.append({"kind": "all", "mode": "bare", "chunk": 0, "of": 1})
     return out
 
 
 def run_shard(ctx, shard, tier):
     mode = shard["mode"]
+    # "bare": the rejecting validators and no notifier at all
+    bare = mode == "bare"
+    mode = "reject" if bare else mode
     sts = states(mode)[shard["chunk"]::shard["of"]]
     if shard["kind"] == "all":
         ops = ops_for(mode, tier)
         for st in sts:
-            ctx.state((mode, st))
+            ctx.state((shard["mode"], st))
             for op in ops:
-                ctx.case({"mode": mode, "before": st, "ops": [op]})
+                ctx.case({"mode": mode, "before": st, "ops": [op],
+                          "bare": bare})
                 ctx.ev()
-                h = Harness(mode, st)
+                h = Harness(mode, st, bare=bare)
                 ref = dict((k, v) for k, v in st)
                 step(ctx, h, ref, op, "all")
                 ctx.state((mode, list(ref.items())))
@@ -512,7 +520,7 @@ def replay(rec):
     ctx = Ctx("C06", None, "quick", 0)
     case = rec["case"]
     mode = case["mode"]
-    h = Harness(mode, case["before"])
+    h = Harness(mode, case["before"], bare=case.get("bare", False))
     ref = dict((k, v) for k, v in case["before"])
     for op in case["ops"]:
         op = tuple(op)
